@@ -172,6 +172,76 @@ static void scenario_pool(uint64_t cid, vh::Rng r) {
 }
 
 // ---------------------------------------------------------------------------------------------------------------
+// A pool that IS full while requests keep coming: holders (quotas summing to the pool size) free a slot and ask for it
+// again, probers ask with get_free_element_safe() and give the slot straight back.  Requests may be refused, never
+// granted twice; when everything has been released the occupancy must be zero and every slot obtainable again.
+static void scenario_pool_full(uint64_t cid, vh::Rng r) {
+  const size_t S = 2 + r.below(15);
+  const int H = 1 + r.below(std::min< size_t >(4, S));
+  const int P = 1 + r.below(4);
+  const uint64_t K = 3000 + r.below(6000);
+  ThreadSafeVector< Task > pool(S, "c08 full pool");
+  std::vector< std::atomic< int > > owner(S);
+  for (auto &o : owner) o.store(-1);
+  std::atomic< uint64_t > refused(0), granted(0);
+  std::vector< std::thread > th;
+  for (int t = 0; t < H + P; ++t) {
+    th.emplace_back([&, t]() {
+      vh::Rng rr = r.fork(7000 + t);
+      const bool holder = t < H;
+      const size_t quota = holder ? (S / H + ((size_t)t < S % H ? 1 : 0)) : 1;
+      std::vector< size_t > mine;
+      for (uint64_t k = 0; k < K; ++k) {
+        const bool want = mine.size() < quota && (mine.empty() || !holder || rr.chance(0.6));
+        if (want) {
+          const size_t idx = pool.get_free_element_safe();
+          if (idx >= S) {
+            refused.fetch_add(1);
+            continue;
+          }
+          granted.fetch_add(1);
+          int expect = -1;
+          if (!owner[idx].compare_exchange_strong(expect, t)) {
+            TVIOL("pool/two-owners", cid, "full-pool scenario: slot %zu handed to thread %d while thread %d owns it (size %zu)", idx, t, expect, S);
+            continue;
+          }
+          mine.push_back(idx);
+          if (!holder) {  // probers give the slot straight back
+            owner[idx].store(-1);
+            pool.free_element(idx);
+            mine.pop_back();
+          }
+        } else if (!mine.empty()) {
+          const size_t idx = mine.back();
+          mine.pop_back();
+          owner[idx].store(-1);
+          pool.free_element(idx);
+        }
+      }
+      for (size_t idx : mine) {
+        owner[idx].store(-1);
+        pool.free_element(idx);
+      }
+    });
+  }
+  for (auto &x : th) x.join();
+  if (pool.get_number_of_active_elements() != 0)
+    TVIOL("pool/occupancy", cid, "after every slot of a pool that had been full was released the pool reports %zu taken slots (size %zu, %d holders, %d probers)",
+          pool.get_number_of_active_elements(), S, H, P);
+  std::set< size_t > seen;
+  for (size_t i = 0; i < S; ++i) {
+    const size_t idx = pool.get_free_element_safe();
+    if (idx >= S || !seen.insert(idx).second) {
+      TVIOL("pool/slot-not-reusable", cid, "pool of size %zu that had been full: request %zu after everything was released returned %zu (%zu slots obtained)", S, i, idx, seen.size());
+      break;
+    }
+  }
+  stat("poolfull_histories");
+  stat("poolfull_refused_requests", refused.load());
+  stat("poolfull_granted_requests", granted.load());
+}
+
+// ---------------------------------------------------------------------------------------------------------------
 static void scenario_queue(uint64_t cid, vh::Rng r) {
   const int L = 1 + r.below(8);
   const int P = 1 + r.below(4), C = 1 + r.below(12);
@@ -482,7 +552,10 @@ int main(int argc, char **argv) {
     if (h % 5 < 2) k = h % 5;  // pools and queues in every block of five
     if (!std::strstr(kinds, names[k])) continue;
     switch (k) {
-    case 0: scenario_pool(h, r); break;
+    case 0:
+      if ((h / 5) % 2 == 0) scenario_pool(h, r);
+      else scenario_pool_full(h, r);
+      break;
     case 1: scenario_queue(h, r); break;
     case 2: scenario_lock(h, r); break;
     case 3: scenario_atomic(h, r); break;
